@@ -21,6 +21,8 @@ import (
 	"fmt"
 	"io"
 	"log"
+	"os"
+	"path/filepath"
 	"reflect"
 	"strings"
 	"sync"
@@ -53,6 +55,33 @@ func c11NewStore(t *testing.T) *Store {
 	createSnapshotInStore(t, s, "2-1017-1704807719996", 1017, 2, 1, "testdata/db-and-wals/backup.db")
 	createSnapshotInStore(t, s, "2-1131-1704807720976", 1131, 2, 1, "", "testdata/db-and-wals/wal-00")
 	return s
+}
+
+// c11AddIncremental creates an incremental snapshot through the real Store.Create, so that
+// Sink.Close signals the reaper goroutine (reapLoop -> BeginWriteBlocking).
+func c11AddIncremental(t *testing.T, s *Store, index uint64, wal string) error {
+	sink, err := s.Create(1, index, 2, makeTestConfiguration("1", "localhost:1"), 1, nil)
+	if err != nil {
+		return err
+	}
+	walDir := filepath.Join(t.TempDir(), "wal-dir")
+	if err := os.Mkdir(walDir, 0755); err != nil {
+		return err
+	}
+	name := fmt.Sprintf("%020d.wal", 1)
+	mustCopyFile(t, wal, filepath.Join(walDir, name))
+	mustWriteCRC32File(t, filepath.Join(walDir, name))
+	streamer, err := NewSnapshotPathStreamer(walDir)
+	if err != nil {
+		sink.Cancel()
+		return err
+	}
+	defer streamer.Close()
+	if _, err = io.Copy(sink, streamer); err != nil {
+		sink.Cancel()
+		return err
+	}
+	return sink.Close()
 }
 
 func c11Newest(s *Store) string {
@@ -313,7 +342,7 @@ func TestVerifC11(t *testing.T) {
 		s.SetReadTimeout(4 * time.Millisecond)
 		s.SetReapThreshold(2)
 		var openStreams atomic.Int64
-		var reapWithOpen, reaps atomic.Int64
+		var reapWithOpen, reaps, explicitReaps atomic.Int64
 		obsCh := make(chan ReapObservation, 1024)
 		obs := NewObserver(obsCh, func(o *ReapObservation) bool {
 			// called inside reap(), while the write lock is still held
@@ -337,6 +366,9 @@ func TestVerifC11(t *testing.T) {
 				defer wg.Done()
 				pr := &vfRng{s: seed}
 				for k := 0; k < per; k++ {
+					if pr.Chance(50) {
+						time.Sleep(time.Duration(pr.Intn(2500)) * time.Microsecond)
+					}
 					metas, err := s.List()
 					if err != nil || len(metas) == 0 {
 						time.Sleep(200 * time.Microsecond)
@@ -428,12 +460,17 @@ func TestVerifC11(t *testing.T) {
 			for i, w := range wals {
 				time.Sleep(time.Duration(1+r.Intn(4)) * time.Millisecond)
 				idx := uint64(1200 + 100*i)
-				createSnapshotInStore(t, s, fmt.Sprintf("2-%d-%d", idx, 1704807721000+int64(i)*1000), idx, 2, 1, "", "testdata/db-and-wals/"+w)
-				for try := 0; try < 5; try++ {
+				if err := c11AddIncremental(t, s, idx, "testdata/db-and-wals/"+w); err != nil {
+					rep.Note("run %d: adding incremental %s failed: %v", run, w, err)
+					return
+				}
+				// explicit Reap attempts (try-lock); the blocking reapLoop was signalled by Sink.Close too
+				for try := 0; try < 400; try++ {
 					if _, _, err := s.Reap(); err == nil {
+						explicitReaps.Add(1)
 						break
 					}
-					time.Sleep(300 * time.Microsecond)
+					time.Sleep(100 * time.Microsecond)
 				}
 			}
 		}()
@@ -472,6 +509,7 @@ func TestVerifC11(t *testing.T) {
 		rep.CountN("B:streams-read-fully", int(full.Load()))
 		rep.CountN("B:streams-force-closed", int(forced.Load()))
 		rep.CountN("B:reaps-observed", int(reaps.Load()))
+		rep.CountN("B:explicit-reaps-succeeded", int(explicitReaps.Load()))
 	}
 	rep.vfCompareSegments("streamer", allOps, allImpl)
 }
